@@ -95,7 +95,7 @@ def run(ctx):
     reset_fields = lambda b: {"nrpc": b["nrpc"], "mut": b.get("mut", 0)}
 
     g = ctx.dump_graph("PeerGrammarClientMC", ctx.pick("PeerGrammarClientGen.cfg", "PeerGrammarClientGenT.cfg"), workers=4)
-    raw = ctx.edge_cover(g, step_of, limit=ctx.pick(2500, 40000))
+    raw = ctx.edge_cover(g, step_of, limit=ctx.pick(4000, 20000))
     behs = []
     seen = set()
     for b in raw:
@@ -114,7 +114,7 @@ def run(ctx):
     if not phase_ok(ctx, tpath, "replay of TLC behaviours"):
         return
 
-    n = ctx.pick(500, 12000)
+    n = ctx.pick(600, 6000)
     rbehs = [random_beh(ctx.rng) for _ in range(n)]
     ctx.cov["behaviours_generated"] += n
     tpath2 = os.path.join(ctx.run, "trace-random.ndjson")
@@ -125,7 +125,7 @@ def run(ctx):
     if not phase_ok(ctx, tpath2, "random frame sequences seed %d" % ctx.seed):
         return
 
-    m = ctx.pick(700, 15000)
+    m = ctx.pick(1000, 8000)
     pool = behs + rbehs
     mbehs = []
     for _ in range(m):
